@@ -1,6 +1,7 @@
 import Tx3Proofs.C02
 import Tx3Proofs.C02Outputs
 import Tx3Proofs.C02Balance
+import Tx3Proofs.C01Optional
 #print axioms Tx3.C02_fee_exact
 #print axioms Tx3.C02_validity_exact
 #print axioms Tx3.C02_mint_range
@@ -21,3 +22,5 @@ import Tx3Proofs.C02Balance
 #print axioms Tx3.den_minusAll
 #print axioms Tx3.C02_balance
 #print axioms Tx3.C02_balance_mint
+#print axioms Tx3.C02_zero_mint_refused
+#print axioms Tx3.C01_optional_output_kept_iff
